@@ -437,6 +437,9 @@ pub trait Cfg<'a, I: InK<'a>>: Sized + 'static {
     fn ctx_bare(_p: BP<'a, I, Self>, _kind: u8) -> BP<'a, I, Self> {
         unsupported("ctx_bare")
     }
+    fn ctx_iter(_kind: u8, _a: BP<'a, I, Self>, _item: BP<'a, I, Self>, _sink: &Sink, _pr: Probes) -> BP<'a, I, Self> {
+        unsupported("ctx_iter")
+    }
 }
 
 pub struct CEmpty;
@@ -545,6 +548,24 @@ impl<'a, I: InK<'a>> Cfg<'a, I> for CRichCx {
             3 => p.repeated().configure(|cfg, ctx: &char| cfg.exactly(ast::count_of(*ctx))).count().map(Val::N).fin(),
             4 => p.repeated().configure(|cfg, ctx: &char| cfg.at_most(ast::count_of(*ctx))).count().map(Val::N).fin(),
             _ => p.repeated().try_configure(tc).count().map(Val::N).fin(),
+        }
+    }
+    fn ctx_iter(kind: u8, a: BP<'a, I, Self>, item: BP<'a, I, Self>, sink: &Sink, pr: Probes) -> BP<'a, I, Self> {
+        // the context provider itself is the iterable parser handed to the sink
+        let a = a.map(|v| ast::ctx_of(&v));
+        macro_rules! go {
+            ($rep:expr) => {
+                if kind / 3 == 0 {
+                    apply_sink_chain::<I, Self, _, _>(a.ignore_with_ctx($rep), sink, pr)
+                } else {
+                    apply_sink_chain::<I, Self, _, _>(a.then_with_ctx($rep), sink, pr)
+                }
+            };
+        }
+        match kind % 3 {
+            0 => go!(item.repeated()),
+            1 => go!(item.repeated().configure(|cfg, ctx: &char| cfg.at_most(ast::count_of(*ctx)))),
+            _ => go!(item.repeated().configure(|cfg, ctx: &char| cfg.exactly(ast::count_of(*ctx)))),
         }
     }
     fn try_rep_ctx(p: BP<'a, I, Self>) -> BP<'a, I, Self> {
@@ -770,6 +791,12 @@ where
         Sink::Exactly(2) => p.collect_exactly::<[Val; 2]>().map(|a| Val::L(a.into())).fin(),
         Sink::Foldl(init) => build::<I, C>(init, pr).foldl(p, |acc, x| Val::P(bx(acc), bx(x))).fin(),
         Sink::Foldr(init) => p.foldr(build::<I, C>(init, pr), |x, acc| Val::P(bx(x), bx(acc))).fin(),
+        Sink::FoldlWith(init) => build::<I, C>(init, pr)
+            .foldl_with(p, |acc, x, e| {
+                let (s0, s1) = e.span().pair();
+                Val::S(s0, s1, bx(Val::P(bx(acc), bx(x))))
+            })
+            .fin(),
         _ => unsupported("this sink on an iter_chain"),
     }
 }
@@ -1089,6 +1116,7 @@ fn build0<'a, I: InK<'a>, C: Cfg<'a, I>>(g: &G, pr: Probes) -> BP<'a, I, C> {
         RepCtxPre(a, st, kind) => C::rep_ctx_pre(build::<I, C>(a, pr), *st, *kind),
         CtxBare(kind, a) => C::ctx_bare(build::<I, C>(a, pr), *kind),
         IterChain(parts, sink) => build_chain::<I, C>(parts, sink, pr),
+        CtxIter(kind, a, item, sink) => C::ctx_iter(*kind, build::<I, C>(a, pr), build::<I, C>(item, pr), sink, pr),
         IntoIter(a, sink) => {
             if matches!(sink, Sink::Str) {
                 return unsupported("Sink::Str on into_iter");
